@@ -82,6 +82,9 @@ type TermStore struct {
 	dts     map[string]*Datatype
 	dtOrder []string
 	fresh   int
+	// frame check mode (see Fresh)
+	frameMode bool
+	frameSeq  int
 }
 
 type FunDecl struct {
@@ -154,6 +157,12 @@ func smtIdent(s string) string {
 }
 
 func (ts *TermStore) Fresh(prefix string, sort *Sort) *Term {
+	if ts.frameMode {
+		// frame check: the same sequence of havocs is applied to two states
+		// and must produce the same symbols in both
+		ts.frameSeq++
+		return ts.Const(fmt.Sprintf("frm!%s!%d", smtIdent(prefix), ts.frameSeq), sort)
+	}
 	ts.fresh++
 	return ts.Const(fmt.Sprintf("%s!%d", smtIdent(prefix), ts.fresh), sort)
 }
